@@ -116,7 +116,9 @@ func TestValidateMutants(t *testing.T) {
 			{"drop ArrayStride", "layout.array-stride", func(t *testing.T, m *Module, ws [][]uint32) ([][]uint32, uint32) {
 				// the runtime array of the output buffer
 				ra := findInst(t, m, opIs(OpTypeRuntimeArray))
-				d := findInst(t, m, func(in *Inst) bool { return in.Op == OpDecorate && in.Arg(0) == ra.Result && in.Arg(1) == DecArrayStride })
+				d := findInst(t, m, func(in *Inst) bool {
+					return in.Op == OpDecorate && in.Arg(0) == ra.Result && in.Arg(1) == DecArrayStride
+				})
 				return remove(ws, d.Index), m.Bound
 			}},
 			{"drop member Offset", "layout.offset", func(t *testing.T, m *Module, ws [][]uint32) ([][]uint32, uint32) {
@@ -124,7 +126,9 @@ func TestValidateMutants(t *testing.T) {
 				return remove(ws, d.Index), m.Bound
 			}},
 			{"overlapping members", "layout.overlap", func(t *testing.T, m *Module, ws [][]uint32) ([][]uint32, uint32) {
-				d := findInst(t, m, func(in *Inst) bool { return in.Op == OpMemberDecorate && in.Arg(2) == DecOffset && in.Arg(1) == 1 && in.Arg(3) == 12 })
+				d := findInst(t, m, func(in *Inst) bool {
+					return in.Op == OpMemberDecorate && in.Arg(2) == DecOffset && in.Arg(1) == 1 && in.Arg(3) == 12
+				})
 				ws[d.Index][4] = 8
 				return ws, m.Bound
 			}},
@@ -211,7 +215,9 @@ func TestValidateMutants(t *testing.T) {
 			}},
 			{"SLessThan operand mismatch (vector vs scalar)", "type.operand-relation", func(t *testing.T, m *Module, ws [][]uint32) ([][]uint32, uint32) {
 				c := findInst(t, m, opIs(OpULessThan))
-				gid := findInst(t, m, func(in *Inst) bool { return in.Op == OpLoad && m.Type(in.Type).Kind == TVector && m.Type(m.Type(in.Type).Elem).Kind == TInt })
+				gid := findInst(t, m, func(in *Inst) bool {
+					return in.Op == OpLoad && m.Type(in.Type).Kind == TVector && m.Type(m.Type(in.Type).Elem).Kind == TInt
+				})
 				ws[c.Index][3] = gid.Result
 				return ws, m.Bound
 			}},
